@@ -485,6 +485,26 @@ def _peeled(iter_, first_args, target, elt):
 
 
 # ------------------------------------------------------------------------------------------------ small constant loops
+def _tail_continue_to_pass(body):
+    """a `continue` that is the last thing an iteration would do anyway (last statement of the body, of the handlers / branches of
+    a last try / if) is a `pass`"""
+    if not body:
+        return body
+    last = body[-1]
+    if isinstance(last, ast.Continue):
+        body[-1] = ast.copy_location(ast.Pass(), last)
+    elif isinstance(last, ast.If):
+        last.body = _tail_continue_to_pass(last.body)
+        last.orelse = _tail_continue_to_pass(last.orelse)
+    elif isinstance(last, ast.Try) and not last.finalbody:
+        last.orelse = _tail_continue_to_pass(last.orelse) if last.orelse else last.orelse
+        if not last.orelse:
+            last.body = _tail_continue_to_pass(last.body)
+        for h in last.handlers:
+            h.body = _tail_continue_to_pass(h.body)
+    return body
+
+
 def unroll_const_loops(idx, mod, fi, stmts):
     """`for v in ("a", "b"): [if C: break] BODY` over a constant tuple of at most four scalars -> BODY once per item, each later
     copy nested under `if not C:` when the loop starts with `if C: break` (no other break/continue, no else clause)"""
@@ -501,8 +521,11 @@ def unroll_const_loops(idx, mod, fi, stmts):
                 items = idx.const(mod, st.iter, fi)
             except Exception:
                 items = None
+            names_only = isinstance(st.iter, (ast.Tuple, ast.List)) and 0 < len(st.iter.elts) <= 4 and all(isinstance(x, ast.Name) and x.id in ("int", "float", "str", "bool", "complex") for x in st.iter.elts)
+            if names_only:
+                items = [x.id for x in st.iter.elts]
             if isinstance(items, (tuple, list)) and 0 < len(items) <= 4 and all(isinstance(x, (str, int, float, bool)) or x is None for x in items):
-                body = st.body
+                body = _tail_continue_to_pass(copy.deepcopy(st.body))
                 guard = None
                 if body and isinstance(body[0], ast.If) and not body[0].orelse and len(body[0].body) == 1 and isinstance(body[0].body[0], ast.Break):
                     guard = body[0].test
@@ -514,6 +537,8 @@ def unroll_const_loops(idx, mod, fi, stmts):
                         class S(ast.NodeTransformer):
                             def visit_Name(self, n):
                                 if n.id == var and isinstance(n.ctx, ast.Load):
+                                    if names_only:
+                                        return ast.copy_location(ast.Name(id=val, ctx=ast.Load()), n)  # a builtin type named in the tuple
                                     return ast.copy_location(ast.Constant(value=val), n)
                                 return n
 
